@@ -378,7 +378,8 @@ CfdpExp(op, a) ==
                            dec |-> [kind |-> a.kind, cfg |-> NormCfg(a.kind, a.cfg, a.p),
                                     p |-> NormP(a.kind, a.p, a.cfg.large)],
                            dplen |-> Len(w), ddflen |-> PduDlen(a.kind, a.cfg, a.p), eq |-> TRUE, repack |-> w,
-                           caller |-> TRUE]
+                           caller |-> TRUE,
+                           rebuild |-> w]      \* a PDU constructed from the decoded object's attribute values packs the same octets
               IN WithSfx(full, a.sfx, DocFams)
     [] op = "pdu.fac" ->
          IF ~PduOk(a.kind, a.cfg, a.p) THEN ExpRej(<<"*">>)
